@@ -20,7 +20,9 @@
 #ifndef K
 # define K 4
 #endif
-#define IDLEN 2
+#ifndef IDLEN
+# define IDLEN 2
+#endif
 
 /* ghost state of the transport */
 static int g_accepted;          /* accepted sends for the current request */
@@ -37,7 +39,8 @@ int h_send(void *ptr, const MPT_STRUCT(reply_data) *rd, const MPT_STRUCT(message
 	int ok = V_IN_BOOL("send_ok");
 	g_attempts++;
 	V_ASSERT(ptr == &transport, "send reaches the attached transport");
-	if (rd->len != IDLEN || rd->val[0] != (g_armed[0] | 0x80) || rd->val[1] != g_armed[1]) g_bad_id = 1;
+	{ int z; const uint8_t *idp = (const uint8_t *) rd + MPT_offset(reply_data, val);   /* id bytes continue behind the 4 inline ones */
+	  if (rd->len != IDLEN || idp[0] != (g_armed[0] | 0x80)) g_bad_id = 1; for (z = 1; z < IDLEN; z++) if (idp[z] != g_armed[z]) g_bad_id = 1; }
 	if (!ok) return -1;
 	g_accepted++; g_total_accepted++;
 	if (!msg) g_default_msg++;
@@ -77,12 +80,12 @@ void harness(void)
 			int r;
 			if (g_armed_on && !answered) continue;
 			if (def) continue;
-			idb[0] = V_IN_U8("id0") & 0x7f; idb[1] = V_IN_U8("id1");
+			{ int z; for (z = 0; z < IDLEN; z++) idb[z] = V_IN_U8("idbyte"); idb[0] &= 0x7f; }
 			V_ASSUME(idb[0] || idb[1]);
 			r = mpt_reply_set(rd, IDLEN, idb);
 			V_ASSERT(r >= 0, "id of the permitted width is accepted");
 			V_ASSERT(mt->_vptr == vp_mt && rc->_vptr == vp_rc, "arming does not disturb the context's interfaces");
-			g_armed[0] = idb[0]; g_armed[1] = idb[1]; g_armed_on = 1; g_accepted = 0; answered = 0;
+			{ int z; for (z = 0; z < IDLEN; z++) g_armed[z] = idb[z]; } g_armed_on = 1; g_accepted = 0; answered = 0;
 		}
 		else if (op == 1) {
 			int before = g_accepted, r;
